@@ -10,6 +10,7 @@ func init() {
 	vHarnesses["H_C02_roundtrip"] = H_C02_roundtrip
 	vHarnesses["H_C02_roundtrip_values"] = H_C02_roundtrip_values
 	vHarnesses["H_C02_roundtrip_opts"] = H_C02_roundtrip_opts
+	vHarnesses["H_C02_roundtrip_cast"] = H_C02_roundtrip_cast
 }
 
 // vSingleRoot: the bytes tokenise (real encoding/xml) as exactly one root element with
@@ -46,6 +47,10 @@ func vSingleRoot(b []byte) bool {
 }
 
 func vC02(root *vXElem, o vDecOpts, indent bool) {
+	vC02cast(root, o, indent, false)
+}
+
+func vC02cast(root *vXElem, o vDecOpts, indent bool, cast bool) {
 	doc := vRenderElem(root)
 	_, _, outside := refDecodeElem(root, o)
 	vAssume(!outside)
@@ -53,7 +58,7 @@ func vC02(root *vXElem, o vDecOpts, indent bool) {
 	if !o.escape {
 		XMLEscapeChars(true)
 	}
-	m1, err := NewMapXml([]byte(doc))
+	m1, err := NewMapXml([]byte(doc), cast)
 	vAssert(err == nil, "roundtrip: the document decodes")
 	var x []byte
 	var xerr error
@@ -66,7 +71,7 @@ func vC02(root *vXElem, o vDecOpts, indent bool) {
 	}
 	vAssert(xerr == nil, "roundtrip: a decoded Map encodes without error")
 	vAssert(vSingleRoot(x), "roundtrip: the re-encoded document is well formed with a single root")
-	m2, err2 := NewMapXml(x)
+	m2, err2 := NewMapXml(x, cast)
 	vAssert(err2 == nil, "roundtrip: the re-encoded document decodes")
 	same := vDeepEq(map[string]interface{}(m1), map[string]interface{}(m2))
 	if !same && indent && o.keepSpaces && vKnown("C02-indent-keepspaces") {
@@ -121,11 +126,26 @@ func H_C02_roundtrip_opts() {
 	o.simpleAsMap = vNondetBool()
 	o.keepSpaces = vNondetBool()
 	o.escape = vNondetBool()
-	suffix := []string{"", "-c"}[vChoose(2)]
+	suffix := []string{"", "-c", "c"}[vChoose(3)]
 	k1 := &vXElem{name: vNondetString(1, 1, "bB"), items: []vXItem{{kind: 1, text: " x"}}}
 	k2 := &vXElem{name: vNondetString(1, 1, "bB") + suffix}
 	root := &vXElem{name: "r" + suffix,
 		attrs: [][2]string{{vNondetString(1, 1, "cC") + suffix, "&"}},
 		items: []vXItem{{kind: 1, text: vNondetString(1, 1, " x&")}, {kind: 0, el: k1}, {kind: 0, el: k2}}}
 	vC02(root, o, vChoose(2) == 1)
+}
+
+// number and boolean look-alikes with float/bool casting (concrete texts: exact parsing
+// and formatting; integer casting is excluded by the property)
+func H_C02_roundtrip_cast() {
+	texts := []string{"16777217", "0.1", "1e21", "123456789.125", "-0", "1.5", "true", "T", "007", "1e-7", "3.0", "+5", ".5", "0x10", "1_000", "2.50", "100000000000000000000", "NaN", "inf"}
+	t1 := texts[vChoose(len(texts))]
+	t2 := texts[vChoose(len(texts))]
+	kid := &vXElem{name: "k", items: []vXItem{{kind: 1, text: t2}}}
+	root := &vXElem{name: "r", attrs: [][2]string{{"a", t1}}, items: []vXItem{{kind: 0, el: kid}, {kind: 0, el: &vXElem{name: "k", items: []vXItem{{kind: 1, text: t1}}}}}}
+	CastValuesToInt(false)
+	CastValuesToFloat(vChoose(2) == 1)
+	CastValuesToBool(vChoose(2) == 1)
+	vC02cast(root, vDecOpts{attrPrefix: "-", textKey: "#text"}, vChoose(2) == 1, true)
+	vResetCastOpts()
 }
